@@ -230,9 +230,11 @@ CtrlsC09 == { Ctl("p1", "f1", "AController", "/a", "A", <<>>), Ctl("p2", "f2", "
 \* the same parameter NAME with types from different packages, in different controllers, at the same ordinal
 MethodsC09 == { MthP("POST", ps, ret, <<>>, 0) :
                   ps \in { <<Prm("item", t, "Body", "", "")>> : t \in {"p1.Item", "p2.Line", "p1.Order", "[]p2.Line", "*p1.Item", "[]p1.Item"} }
-                       \cup { <<Prm("item", t, "Query", "", "")>> : t \in {"p1.Color", "p2.Level", "p2.Code", "[]p1.Color"} },
+                       \cup { <<Prm("item", t, "Query", "", "")>> : t \in {"p1.Color", "p2.Level", "p2.Code", "[]p1.Color", "p1.Shade"} },
                   ret \in { <<"error">>, <<"p1.Item", "error">>, <<"p2.Line", "error">>, <<"[]p1.Order", "error">>, <<"*p2.Line", "error">>, <<"p2.Level", "error">> } }
-TypesC09 == { <<TItem, TMyErr, TColor, TOrder, TLine, TLevel, TCode>> }
+\* an enum two of whose constants share a value (a 'default' member mirroring another one)
+TDup == Ty("p1", "Shade", "enum", "string", <<>>, <<Con("ShadeDark", "\"dark\""), Con("ShadeLight", "\"light\""), Con("ShadeDefault", "\"dark\""), Con("ShadeMid", "\"mid\"")>>)
+TypesC09 == { <<TItem, TMyErr, TColor, TOrder, TLine, TLevel, TCode, TDup>> }
 
 \* ---- C11: every validator rule either converter knows x applicable / inapplicable field types (one field per rule) -----------------
 RuleList == << "required", "omitempty", "email", "uuid", "ip", "ipv4", "ipv6", "hostname", "date", "datetime", "gt=1", "gte=2", "lt=9", "lte=8", "min=1", "max=7", "len=5",
